@@ -461,6 +461,33 @@ func c13Run(c c13Case, st *fw.Stats) []fw.Viol {
 				_ = try(func() { r.WithOptions() })
 			}
 		}
+		// global middleware is not counted by the registration limit: accepted definitions whose chain (global + route
+		// middleware + main handler) is longer than the limit are still served without the router panicking
+		for _, gl := range []int{1, 2, 3, 8} {
+			for _, rm := range []int{60, 61, 62} {
+				st.Evals++
+				r := rux.New(opts...)
+				var rt *rux.Route
+				nexts := make([]rux.HandlerFunc, rm)
+				for i := range nexts {
+					nexts[i] = func(x *rux.Context) { x.Next() }
+				}
+				if pv := try(func() {
+					for i := 0; i < gl; i++ {
+						r.Use(func(x *rux.Context) { x.Next() })
+					}
+					rt = r.GET("/many/{id}", c13Noop, nexts...)
+				}); pv != nil || rt == nil {
+					continue // rejected: fine
+				}
+				for _, p := range []string{"/many/1", "/many/1", "/many", "/zz"} {
+					if _, pv := serve(r, "GET", p); pv != nil {
+						add("lookup:panic:serve", fmt.Sprintf("%d global middleware + a route with %d middleware (accepted by registration, options mask %d): ServeHTTP(GET %q) panicked: %v", gl, rm, c.Opts, p, pv))
+						break
+					}
+				}
+			}
+		}
 		// ONE Route value registered a second time (on the same router / on a second one): whether that is accepted or
 		// rejected, the router that accepted it first still matches without a panic
 		for _, pat := range []string{"/d/{id}", "/o[/{x}]", "/s", `/d/{id:\d+}/{k}`} {
